@@ -54,7 +54,9 @@ JudgeProbes(e) ==
       C1(name, T) == IF T = {} THEN "" ELSE name \o ":" \o ToString(SetMin(T)) \o "|"
       C(name, T) == C1(name \o "@split", {i \in T : Group(q.kind[i]) = "split"})
                     \o C1(name \o "@vlevel", {i \in T : Group(q.kind[i]) = "vlevel"})
-                    \o C1(name \o "@other", {i \in T : Group(q.kind[i]) = "other"})
+                    \* ordinary points: when a vertex of the polygon lies in the 1e-9 snapping band of a split line
+                    \* the quadtree double-counts or drops that edge and whole regions get the wrong sign
+                    \o C1(name \o (IF e.snap > 0 THEN "@snap" ELSE "@other"), {i \in T : Group(q.kind[i]) = "other"})
       \* the brute-force implementation against the oracle; the quadtree against the brute force
       bss == {i \in 1..m : SignsDiffer(q.ss[i], q.so[i])}
       bsf == {i \in 1..m : SignsDiffer(q.sf[i], q.ss[i])}
